@@ -104,6 +104,23 @@ def cosim(rep: common.Report, types: typing.Sequence[pydsdl.CompositeType], per_
     rep.extra["py_cosimulation"] = dict(concrete_runs_compared_with_real_numpy=n, disagreements=len(bad))
     for b in bad[:5]:
         rep.unknown("py:cosimulation", "numpy stand-in disagrees with the real numpy: " + b[:400])
+    history(rep, types)
+
+
+def history(rep: common.Report, types: typing.Sequence[pydsdl.CompositeType]) -> None:
+    """process history of the generated Python code (memoised helpers, shared scratch arrays): a CONCRETE run in one real process, labelled as such"""
+    from pysym import pycodec
+    try:
+        n, bad = pycodec.history_cosimulate(_STATE["gen"], list(types), common.seed())
+    except Exception as e:
+        rep.unknown("py:history", f"could not run: {type(e).__name__}: {str(e)[-300:]}")
+        return
+    rep.extra["py_history_cosimulation"] = dict(native_calls_in_one_process=n, violations=len(bad), kind="concrete run (real numpy), not a solver verdict")
+    for b in bad[:5]:
+        rd = common.replay_dir(rep.prop, dict(history=b[:200]))
+        (rd / "replay.sh").write_text("#!/bin/bash\necho 'sequence of serialize/deserialize calls in one Python process: ' " + json.dumps(b[:300]) + "; exit 11\n")
+        os.chmod(rd / "replay.sh", 0o755)
+        rep.counterexample("py:history", "[py] process history: " + b[:400], str(rd), True)
 
 
 def replayer(t: pydsdl.CompositeType):
@@ -207,6 +224,42 @@ for t in types:
         out.append(dict(type=str(t), evaluations=1, bad=[["probe", type(e).__name__ + ": " + str(e)[:120], "importable class with metadata"]]))
 print(json.dumps(out))
 '''
+
+
+_DECOY_GEN = r'''
+import sys, pathlib, re, shutil, tempfile
+import nunavut
+real, out = pathlib.Path(sys.argv[1]), pathlib.Path(sys.argv[2])
+# a DECOY revision of the same namespace: same type names, versions and wire layout, other constant values and other field names
+d = pathlib.Path(tempfile.mkdtemp())
+try:
+    dec = d / real.name
+    shutil.copytree(real, dec)
+    for f in dec.rglob("*.dsdl"):
+        t = f.read_text()
+        t = re.sub(r"^(u?int\d+ [A-Za-z_]\w* = )\d+$", r"\g<1>1", t, flags=re.M)
+        t = re.sub(r"^((?:saturated |truncated )?(?:u?int\d+|bool|float\d+)(?:\[[^\]]*\])? )([a-z]\w*)$", r"\1\2_decoy", t, flags=re.M)
+        f.write_text(t)
+    kw = dict(omit_serialization_support=False, allow_unregulated_fixed_port_id=True, include_experimental_languages=True)
+    nunavut.generate_types("py", dec, d / "out_decoy", **kw)        # an earlier generator run in this process ...
+    nunavut.generate_types("py", real, out, **kw)                   # ... must not influence this one
+finally:
+    shutil.rmtree(d, ignore_errors=True)
+'''
+
+
+def generate_after_decoy(root: pathlib.Path, ns: pathlib.Path) -> pathlib.Path:
+    """the Python package of `ns`, generated through the Python API in a process that has generated a decoy revision of it first"""
+    import subprocess
+    out = root / "gen_py_after_decoy"
+    if not out.exists():
+        env = dict(os.environ)
+        alt = env.get("VERIF_NUNAVUT_SRC")
+        env["PYTHONPATH"] = alt if alt else ""
+        p = subprocess.run([common.PY, "-c", _DECOY_GEN, str(ns), str(out)], stdout=subprocess.PIPE, stderr=subprocess.PIPE, text=True, env=env)
+        if p.returncode != 0:
+            raise RuntimeError("generation after a decoy run failed: " + p.stderr[-500:])
+    return out
 
 
 def python_metadata(gen: pathlib.Path, ns: pathlib.Path) -> typing.List[dict]:
